@@ -82,6 +82,13 @@ def run(ctx):
                     extraction.append((lp, c))
                 if c.op == "call" and isinstance(c.args[0], Ref) and c.args[0].obj is fi:
                     recursion.append((lp, c))
+    def dedupe(pairs):
+        out = []
+        for lp, c in pairs:
+            if not any(lp is l2 and c == c2 for l2, c2 in out):
+                out.append((lp, c))
+        return out
+    extraction, recursion = dedupe(extraction), dedupe(recursion)
     if len(extraction) != 1 or len(recursion) != 1:
         raise AnalysisError(f"{fq}: extraction/recursion loops not recognised ({len(extraction)}/{len(recursion)})")
 
@@ -160,7 +167,7 @@ def run(ctx):
     R.check("C11-D1b disjoint partition", uses_mutated, "payload selection uses the candidates after the removal", mod=fi.module,
             node=fi.node, function=fq, expected="payloads_to_extract derives from the reduced list", found=repr(itB)[:200])
 
-    R.rule("C11-D1c pairing", 5, "pop(k) -> cache slot k; dependency d recursed and stored back under d; same patterns")
+    R.rule("C11-D1c pairing", 6, "pop(k) -> cache slot k; dependency d recursed and stored back under d; same patterns")
     k = App("elem", (itB,))
     pos = [a for a in add.args[1:] if not (isinstance(a, App) and a.op == "kw")]
     R.check("C11-D1c pairing", add.args[0] == cache and len(pos) == 2 and pos[0] == k, "cache slot keyed by the payload's own name",
@@ -185,6 +192,15 @@ def run(ctx):
             node=back[0].node if back else fi.node, function=fq, expected="envelope.value[dependency] = new_dependency_data",
             found=f"{[repr(e)[:160] for e in stores]}")
 
+    # every way through one iteration of the dependency loop stores the stripped dependency back: a handler that swallows a failure of
+    # the recursive call and goes on leaves payloads that were already moved to the cache in the (unchanged) dependency as well
+    from sa.absint import flatten_effects as _flat2
+    body_paths = list(_flat2(list(lpC.args[1].args)))
+    unstored = [pth for pth in body_paths if not any(isinstance(e, App) and e.op == "eff:store" and strip_sites(e).args[0] == ENV and strip_sites(e).args[1] == d
+                                                      for e in pth)]
+    R.check("C11-D1c pairing", not unstored, "every way through an iteration of the dependency loop stores the result back (or leaves the function)",
+            mod=fi.module, node=rec.node, function=fq, expected="a failure of the recursive call aborts the command",
+            found=f"{len(unstored)} of {len(body_paths)} paths continue without storing: a dependency that failed half-way keeps payloads that are already in the cache")
     R.rule("C11-D1d write set and result", 3, "nothing else in the envelope map is written; result = re-encoded envelope with the same tag")
     other = [e for e in all_effects(eff) if isinstance(e, App) and (
         (e.op in ("eff:store", "eff:delitem") and e.args[0] in (ENV, raw) and e not in back) or
@@ -231,7 +247,7 @@ def _exc(o):
 def file_level(ctx, ev):
     R = ctx.report
     repo = ctx.repo
-    R.rule("C11-D1e file level", 3, "whole input file in, returned bytes out, both patterns passed")
+    R.rule("C11-D1e file level", 4, "whole input file in, returned bytes out, both patterns passed")
     fi = repo.func(CC, "CacheFromEnvelope.fill_cache_from_envelope")
     fq = ctx.fq(fi)
     outs = [o for o in ev.outcomes(fi) if o.kind == "return"]
@@ -252,6 +268,17 @@ def file_level(ctx, ev):
     R.check("C11-D1e file level", len(w) == 1 and w[0].args[0] == App("open", (P("output_envelope"), Const("wb"))) and w[0].args[1] == c,
             "the returned bytes are written unmodified to the output envelope", mod=fi.module, node=fi.node, function=fq,
             expected="open(output_envelope, 'wb').write(result)", found=repr(w)[:200])
+    # the output file is opened (truncated) only after the input was read and processed: input and output may be the same file
+    from sa.absint import flatten_effects as _flat
+    order_ok = True
+    for seq in _flat(o.effects):
+        i_out = [i for i, e in enumerate(seq) if isinstance(e, App) and e.op == "eff:open" and e.args[0] == P("output_envelope")]
+        i_call = [i for i, e in enumerate(seq) if isinstance(e, App) and e.op == "eff:call" and e.args[0] == c]
+        if i_out and i_call and min(i_out) < max(i_call):
+            order_ok = False
+    R.check("C11-D1e file level", order_ok, "the output envelope is opened for writing only after the extraction returned", mod=fi.module,
+            node=fi.node, function=fq, expected="read input; extract; then open(output_envelope, 'wb') - stripping in place must not empty the input first",
+            found="the output file is opened (truncated) before the input has been read and processed")
     R.rule("C11-D1f CLI plumbing", 4, "main passes each option to the parameter of the same name")
     n = argname.check_function(ctx, "C11-D1f CLI plumbing", repo.func(CC, "main"))
     if n < 4:
